@@ -117,8 +117,13 @@ def build(pexpect, which, unicode_mode, logs, chunks):
         from pexpect import socket_pexpect
 
         class Sock(T.FakeSocket):
+            # the socket accepts whatever it is given, whichever of the two calls is used
             def sendall(self_, b):
                 wire.append(bytes(b))
+
+            def send(self_, b):
+                wire.append(bytes(b))
+                return len(b)
         c = socket_pexpect.SocketSpawn(Sock(sim), timeout=5, encoding=enc)
         ctxs = [T.Patched(pexpect, sim, T.FAKE_FD)]
     a, r, s = logs
